@@ -196,6 +196,10 @@ class MyPyAstVisitor:
         superclasses = []
         inherits_from_exception = False
         for superclass in node.base_type_exprs:
+            # The superclass of "class IntBox(Box[int])" is "Box"
+            if isinstance(superclass, mp_nodes.IndexExpr):
+                superclass = superclass.base
+
             # Check for superclasses that inherit directly or transitively from Exception and remove them
             if (
                 hasattr(superclass, "node")
